@@ -1,0 +1,47 @@
+//go:build verif
+// +build verif
+
+package cache
+
+import (
+	"errors"
+
+	"github.com/dgrijalva/lfu-go"
+)
+
+// Verification hooks (build tag "verif"). Add-only; not compiled into normal builds.
+
+const verifSentinel = "\x00verif-barrier\x00"
+
+var errVerifSentinel = errors.New("verif barrier sentinel")
+
+// VerifWrap wraps the user-supplied Bytes function. It must be called once, after Bytes has
+// been set and before the cache is used. The wrapper (a) refuses to serialize the barrier
+// sentinel, so that a sentinel sent through the save channels is never written, and
+// (b) calls gate(key) before every serialization, which lets a harness hold one key's save.
+func (cache *Cache) VerifWrap(gate func(key string)) {
+	orig := cache.Bytes
+	cache.Bytes = func(k string, v interface{}) ([]byte, error) {
+		if k == verifSentinel {
+			return nil, errVerifSentinel
+		}
+		if gate != nil {
+			gate(k)
+		}
+		return orig(k, v)
+	}
+}
+
+// VerifBarrier returns once the eviction goroutine and the write-back goroutine have finished
+// every save handed to them before the call: both channels are unbuffered and each goroutine
+// receives the next item only after the previous saveToDisk returned. Requires VerifWrap.
+// Must not be called after Flush (the channels are closed).
+func (cache *Cache) VerifBarrier() {
+	cache.lfu.EvictionChannel <- lfu.Eviction{Key: verifSentinel}
+	cache.lfu.WriteBackChannel <- lfu.Eviction{Key: verifSentinel}
+}
+
+// VerifEvictionBarrier waits for the eviction goroutine only.
+func (cache *Cache) VerifEvictionBarrier() {
+	cache.lfu.EvictionChannel <- lfu.Eviction{Key: verifSentinel}
+}
